@@ -183,6 +183,62 @@ def reduce_rules(chk, repo):
                                                   HALFN(nf.index(sh, C(1)), fac), fac), axis=C(3)), axis=C(1))
         chk.ob('C20-e', 'U-axis', f.key, 'reshape to (n0//f, f, n1//f, f) and sum the two factor axes',
                p.ret == want, f'returns {fmt(p.ret)}', f.loc(p.node))
+    # cubes: the same block sums for every slice, accumulated in numpy's accumulator type (not the type of the input:
+    # boolean and small integer cubes would wrap / saturate and lose the sum)
+    f, paths, _ = analyse(repo, 'util.rebin', facts={nf.attr(S('img'), 'ndim').single_atom(): C(3)})
+    n1, n2 = HALFN(nf.index(sh, C(1)), fac), HALFN(nf.index(sh, C(2)), fac)
+    for p in returns(paths):
+        whole = nf.app('sum', nf.app('sum', nf.app('m:reshape', S('img'), nf.index(sh, C(0)), n1, fac, n2, fac), axis=C(4)), axis=C(2))
+        ok_v, ok_t, det, det_t = None, None, f'returns {fmt(p.ret)[:200]}', ''
+        if p.ret == whole:
+            ok_v, ok_t, det_t = True, True, 'the sums are returned as numpy accumulates them'
+        ra = p.ret.single_atom() if isinstance(p.ret, Poly) else None
+        if ra is not None and ra[0] == 'loop':
+            for lp in p.state.loops:
+                if lp['func'] != f.key:
+                    continue
+                its = [x for x in nf.value_atoms(lp['iter']) if x[0] == 'sym'] if isinstance(lp['iter'], Poly) else []
+                for ends in lp['ends']:
+                    for nm, v in ends.items():
+                        va = v.single_atom() if isinstance(v, Poly) else None
+                        if va is None or not is_app(va, 'setitem') or len(va[2]) != 3:
+                            continue
+                        k = va[2][1]
+                        ka = k.single_atom() if isinstance(k, Poly) else None
+                        if ka is None or ka[0] != 'iter':
+                            continue
+                        one = nf.app('sum', nf.app('sum', nf.app('m:reshape', nf.index(S('img'), k), n1, fac, n2, fac), axis=C(3)), axis=C(1))
+                        ok_v = va[2][2] == one
+                        det = f'slice i <- {fmt(va[2][2])[:160]}'
+                        pre = lp['pre'].get(nm)
+                        from .. import dtypes
+                        pa = pre.single_atom() if isinstance(pre, Poly) else None
+                        inherits = pa is not None and (is_app(pa, ('zeros_like', 'empty_like', 'ones_like')) or any(
+                            x == nf.attr(S('img'), 'dtype').single_atom() for x in nf.value_atoms(pre)))
+                        ok_t = not inherits
+                        det_t = f'the sums are stored into {fmt(pre)[:120]}' + (', which has the type of the input' if inherits else '')
+        if ok_t is None:
+            # whatever is written into it: an array created with the type of the input cannot hold the sums
+            root = p.ret
+            for _ in range(6):
+                ra_ = root.single_atom() if isinstance(root, Poly) else None
+                if ra_ is not None and is_app(ra_, ('setitem', 'copy', 'asarray')) and isinstance(ra_[2][0], Poly):
+                    root = ra_[2][0]
+                    continue
+                if ra_ is not None and ra_[0] == 'loop':
+                    pre = [lp['pre'].get(ra_[1].split('@')[0]) for lp in p.state.loops if ra_[1].split('@')[0] in lp['pre']]
+                    if pre and isinstance(pre[0], Poly):
+                        root = pre[0]
+                        continue
+                break
+            ra_ = root.single_atom() if isinstance(root, Poly) else None
+            if ra_ is not None and is_app(ra_, ('zeros', 'empty', 'ones', 'full', 'zeros_like', 'empty_like', 'ones_like', 'cast', 'm:astype')) and \
+                    (is_app(ra_, ('zeros_like', 'empty_like', 'ones_like')) and ra_[2][0] == S('img') or
+                     nf.attr(S('img'), 'dtype').single_atom() in nf.value_atoms(root)):
+                ok_t, det_t = False, f'the result is {fmt(root)[:120]}: it has the type of the input'
+        chk.ob('C20-e', 'U-axis', f.key, 'cubes: every slice is reshaped to (n1//f, f, n2//f, f) and summed over the two factor axes',
+               ok_v, det, f.loc(p.node))
+        chk.ob('C20-e', 'T-dtype', f.key, 'cubes: block sums are not stored back in the type of the input', ok_t, det_t, f.loc(p.node))
     # centroid
     centroid_rule(chk, repo, 'C20-e')
 
@@ -350,6 +406,72 @@ def segment_rules(chk, repo):
                             'undecided: ring/segment loops not in the expected nested form'), f.loc())
 
 
+def non_overlap_rule(chk, repo, clause):
+    """Non-antialiased hexagons are closed on all six sides and neighbours are pitched so that, with no gap, they share
+    an edge - which runs through the origin row (or column, when rotated) of samples.  The segments can only be disjoint
+    if the hexagon's edge tests are half open or hex_segments takes the samples an earlier segment claimed out of the
+    later ones."""
+    fh = repo.func('shape.hexagon')
+    _, hp, _ = analyse(repo, fh, config={'antialias': FALSE})
+    closed = None
+    for p in returns(hp):
+        for lp in p.state.loops:
+            if lp['func'] != fh.key:
+                continue
+            for ends in lp['ends']:
+                for nm, v in ends.items():
+                    a = v.single_atom() if isinstance(v, Poly) else None
+                    if a is not None and is_app(a, 'setitem') and len(a[2]) == 3 and a[2][2] == C(0):
+                        base = a[2][0].single_atom() if isinstance(a[2][0], Poly) else None
+                        k = a[2][1].single_atom() if isinstance(a[2][1], Poly) else None
+                        if base is not None and is_app(base, ('ones', 'ones_like')) and k is not None and is_app(k, ('lt', 'le')):
+                            # zeroed where inner < rho (strict): the edge itself stays inside -> closed
+                            strict = k[1] == 'lt'
+                            closed = strict if closed is None else (closed and strict)
+    fs = repo.func('segmented.hex_segments')
+    _, sp, _ = analyse(repo, fs, config={'antialias': FALSE})
+    excl, other = None, False
+    for p in returns(sp):
+        found = False
+        stack = nf.strip_apps(p.ret, ('asarray', 'copy', 'array', 'sum'))
+        for lp in p.state.loops:
+            if lp['func'] != fs.key:
+                continue
+            for bs in lp['states']:
+                for e in bs.events[lp['n_pre_events']:]:
+                    if e.kind != 'write' or e.data.get('how') != 'setitem':
+                        continue
+                    ta = e.target.single_atom() if isinstance(e.target, Poly) else None
+                    if ta is None or ta[0] != 'idx' or not any(x[0] == 'iter' for x in nf.value_atoms(ta[2])):
+                        continue
+                    key = e.data.get('key')
+                    carried = [x for x in nf.value_atoms(key) if x[0] == 'loop'] if key is not None else []
+                    zero = e.data.get('value') == C(0)
+                    feeds = False
+                    for ends in lp['ends']:
+                        for nm, v in ends.items():
+                            if any(x[0] == 'loop' and x[1].split('@')[0] == nm for x in carried) and \
+                                    any(x == ta or (x[0] == 'idx' and x[1] == ta[1]) for x in nf.value_atoms(v)):
+                                feeds = True
+                    if zero and carried and feeds:
+                        found = True
+                    else:
+                        other = True
+        excl = found if excl is None else (excl and found)
+    if closed is False:
+        verdict, det = True, 'the non-antialiased hexagon is open on its edges: neighbours cannot share a sample'
+    elif closed and excl:
+        verdict, det = True, 'hexagon edges are closed; hex_segments removes the samples claimed by earlier segments from later ones'
+    elif closed and excl is False and not other:
+        verdict, det = False, ('hexagon(antialias=False) keeps the samples on its six edges and neighbours at pitch seg_radius + '
+                               'seg_gap/2 share an edge when seg_gap = 0 (it runs through the origin row / column of samples): '
+                               'nothing in hex_segments keeps such a sample out of the second segment')
+    else:
+        verdict, det = None, f'edge tests closed: {closed}; exclusion step recognised: {excl}'
+    chk.ob(clause, 'structural', fs.key, 'non-antialiased segments are disjoint for every gap >= 0 (shared edge samples go to one segment)',
+           verdict, det, fs.loc())
+
+
 def run(chk, repo, tier):
     from .common import no_hidden_state
     no_hidden_state(chk, repo, 'C20')
@@ -363,6 +485,8 @@ def run(chk, repo, tier):
     chk.clause('C20-f', 'drawn shapes lie in [0,1] and are binary without antialiasing', 8)
     chk.clause('C20-g', 'hex_ring yields 6*radius hexagons; hex_segments counts 1+3k(k+1)-|drop|', 3)
     chk.clause('C20-h', 'hexagonal grid: axial -> cartesian map, (row, col) = (-y, x), pitch seg_radius + seg_gap/2', 4)
+    chk.clause('C20-j', 'hexagonal segments are mutually non-overlapping, also with no gap between them', 1)
+    non_overlap_rule(chk, repo, 'C20-j')
     chk.clause('C20-s', 'no helper mixes two different axes of one array (package-wide shape inference over util/helper/shape/segmented)', 1)
     fw = repo.func('util.window')
     _, wpaths, _ = analyse(repo, fw, config={'slice': NONE, 'shape': S('shape')})
